@@ -915,6 +915,9 @@ def sym_contains(I, ref, o, x):
     if o.kind == "symdict":
         r = [z3.And(p, ops.eq_values(I, k, x).term()) for (k, p, v) in o.items]
         return VBool(t=z3.Or(r)) if r else FALSE
+    if o.kind == "symlist":
+        from . import symlist
+        return symlist.contains(I, ref, o, x)
     from . import libmodels
     return libmodels.ext_contains(I, ref, o, x)
 
